@@ -3,22 +3,28 @@ import glob, json, os, shutil
 import vlib
 
 TARGETS = ["Base/Corr.vo", "C10/Gen.vo", "C10/Model.vo", "C10/ModelSparse.vo", "C10/Corr.vo", "C10/Spec.vo",
-           "C10/ProofsIndex.vo", "C10/ProofsViews.vo", "C10/ProofsIter.vo", "C10/ProofsOps.vo", "C10/ProofsTip.vo",
-           "C10/ProofsSparse.vo", "C10/Props.vo"]
+           "C10/ProofsIndex.vo", "C10/ProofsViews.vo", "C10/ProofsIter.vo", "C10/ProofsIterSkip.vo", "C10/ProofsOps.vo",
+           "C10/ProofsTip.vo", "C10/ProofsTipGen.vo", "C10/ProofsOpsView.vo", "C10/ProofsSparse.vo", "C10/ProofsSparseT.vo", "C10/Props.vo"]
 PROPS = ["C10/Props.v"]
 PARTIAL = (
     "The integer kernels (index, ij, SLICE/Slice/ConstSlice, T/MagicT, Dims, dense iterator Ok/next/Index) are re-translated "
     "from all 18 matrix instantiations of the repository on every run (go2coq_c10 -> Gen.v) and the theorems are re-checked "
     "against the regenerated text; everything that touches storage (element access, Reset/Set/SetIdentity, element-wise ops, "
     "MdotM/MdotV/VdotM, Row/Col/Diag, ConstRow/ConstCol, Swap*/Permute*, Tip, AsVector/AsMatrix, Clone, MarshalJSON, "
-    "String/Table/Export, iterators; sparse: the same header over one sorted (index,value) list, T() re-layout) is the "
-    "hand-written model of Model.v/ModelSparse.v, tied by exact replay. Go int is Z (header fields are bounded by slice "
-    "lengths, no overflow); element values are Z (small integers, exact in every element type). Tip is proved for every "
-    "storage content on all shapes up to 12x12 (finite sweep + naturality lemma), not for unbounded shapes. "
-    "Operations-on-view = operations-on-deep-copy is proved for the whole-matrix writes (Reset, SetIdentity, Set and "
-    "element-wise ops with independent operands) and for reads; for the remaining modelled operations (products, swaps, "
-    "permutations, export/JSON) it follows from their going through index only and is decided by the exhaustive "
-    "implementation-level hunt, not by a theorem. Known findings (F-ASVEC, F-SPITER, F-SPT, F-SPT-REF, F-IJ-T) "
+    "String/Table/Export, iterators with their zero-skipping loop; sparse: the same header over one sorted (index,value) "
+    "list, T() re-layout) is the hand-written model of Model.v/ModelSparse.v, tied by exact replay. Go int is Z (header "
+    "fields are bounded by slice lengths, no overflow); element values are Z (small integers, exact in every element type). "
+    "Tip on a non-transposed whole-storage matrix is proved for every storage content (naturality lemma) on all shapes up "
+    "to 24x24 (finite sweep in Coq), not for unbounded shapes: the number theory of the cycle map (cell (i,j) goes to cell "
+    "(j,i); gcd(rows, mn-1)=1; the map is a permutation of [0,mn-1) with explicit inverse) is proved for every shape, the "
+    "induction over the cycles with the visited set is not; Tip on a transposed matrix (after fix 2ffe99c) is proved for "
+    "every header. Operation-on-view = operation-on-deep-copy is a theorem for every read-only/arithmetic operation of "
+    "the model that reaches storage through index (element reads, Row/Col/Diag, MdotV/VdotM, the inner products of MdotM "
+    "with both operands views, String/Table, Export, IsSymmetric, MarshalJSON, both iterators) and for the whole-matrix "
+    "writes (Reset, SetIdentity, Set and element-wise ops with independent operands); for the in-place permuting writes "
+    "(Swap, SwapRows/SwapColumns, Permute*, MdotM with the view as receiver) it is decided by the exact replay and the "
+    "exhaustive implementation-level hunt, not by a theorem. Sparse T() is proved for whole matrices of every shape and "
+    "content; sparse views are covered by witness refutations. Known findings (F-ASVEC, F-SPITER, F-SPT, F-SPT-REF, F-IJ-T) "
     "are excluded from the universally quantified statements and refuted by witness lemmas instead.")
 
 
